@@ -154,3 +154,9 @@ open Rsj.C04Prog in
 #print axioms C04_eval_limits_monotone
 open Rsj.C04Prog in
 #print axioms C04_rewrite_invariance_full_false
+open Rsj.C04Prog in
+#print axioms Covered.rewrite
+open Rsj.C04Prog in
+#print axioms tsRewrite
+open Rsj.C04Prog in
+#print axioms tsWitness
